@@ -278,6 +278,18 @@ func envelopeScenario() *explore.Scenario {
 				if !refEquals(orig, back) {
 					vs.Fail("envelope-roundtrip", "%s came back as %s", describe(orig), describe(back))
 				}
+				// an envelope stays what it is while others are made (a batch is wrapped message by message before
+				// anything is published): wrap a second message of the same and of another size, then open the first
+				for _, other := range []*message.Message{build("zz", p, md), build("a-much-longer-uuid-than-the-first", append([]byte("other "), p...), md)} {
+					if _, err := forwarder.VerifWrap("elsewhere", other); err != nil {
+						vs.Fail("envelope-roundtrip", "wrap: %v", err)
+						continue
+					}
+					topic2, back2, err := forwarder.VerifUnwrap(env)
+					if err != nil || topic2 != sigma[ti] || !refEquals(orig, back2) {
+						vs.Fail("envelope-roundtrip", "after another message was wrapped, the envelope of %s opens as topic %q, %v (%v)", describe(orig), topic2, back2, err)
+					}
+				}
 			}
 		}
 		vs.Note("uuid %q topic %q: %d messages", sigma[ui], sigma[ti], n)
